@@ -19,11 +19,14 @@ Lemma ordered_calls_set_and_clear_flag_spec : ordered_calls_set_and_clear_flag =
 Lemma failure_terminates_and_clears_spec : failure_terminates_and_clears = true. Proof. vm_compute. reflexivity. Qed.
 Lemma cut_short_terminates_spec : cut_short_terminates = true. Proof. vm_compute. reflexivity. Qed.
 Lemma start_workers_resets_spec : start_workers_resets = true. Proof. vm_compute. reflexivity. Qed.
+Lemma apply_params_spec : apply_sets_params_only_when_starting = true. Proof. vm_compute. reflexivity. Qed.
+Lemma apply_mode_spec : apply_mode_reset_per_task = true. Proof. vm_compute. reflexivity. Qed.
+Lemma idle_death_spec : idle_death_reported_once = true. Proof. vm_compute. reflexivity. Qed.
 Lemma eq_compares_all_fields_spec : eq_compares_all_fields = true. Proof. vm_compute. reflexivity. Qed.
 
 Ltac facts := rewrite ?setters_reset_comms_spec, ?changed_settings_restart_spec, ?new_params_shipped_spec,
   ?fresh_workers_when_none_spec, ?helper_chosen_per_chunk_spec, ?lifespan_read_from_current_params_spec,
-  ?ordered_calls_set_and_clear_flag_spec, ?failure_terminates_and_clears_spec, ?cut_short_terminates_spec, ?start_workers_resets_spec in *.
+  ?ordered_calls_set_and_clear_flag_spec, ?failure_terminates_and_clears_spec, ?cut_short_terminates_spec, ?start_workers_resets_spec, ?idle_death_spec, ?apply_mode_spec, ?apply_params_spec in *.
 
 Lemma opt_eqb_eq a b : opt_eqb a b = true -> a = b.
 Proof. destruct a, b; cbn; intros H; try discriminate; try reflexivity. apply Nat.eqb_eq in H. congruence. Qed.
@@ -55,7 +58,7 @@ Lemma hstep_HI s o : HI s -> HI (fst (hstep s o)) /\
                o_gen ob = (if alive s && initialized s then gen s else S (gen s))
   | None => True end.
 Proof.
-  intros (Hst & Hk & Hl & Hp). destruct o as [ordered mp out|l|b| |]; cbn [hstep fst snd]; facts.
+  intros (Hst & Hk & Hl & Hp). destruct o as [ordered mp out|l|b| | |amp]; cbn [hstep fst snd]; facts.
   - (* a call *)
     assert (Hns : alive s = true -> stale_err s = false).
     { intros Ha. destruct (stale_err s) eqn:E; [rewrite (Hst eq_refl) in Ha; discriminate|reflexivity]. }
@@ -92,6 +95,10 @@ Proof.
   - split; [|exact I]. unfold HI; cbn. repeat split; auto.
   - split; [|exact I]. unfold HI; cbn. repeat split; auto; intros; discriminate.
   - split; [|exact I]. unfold HI; cbn. repeat split; auto; intros; discriminate.
+  - (* apply_async: running workers and the pool-side copy stay in step; otherwise fresh workers with its parameters *)
+    rewrite ?apply_params_spec. destruct (alive s) eqn:Ha; cbn [fst snd]; (split; [|exact I]); unfold HI; cbn [alive gen w_layout w_params w_ordered initialized keep_order p_layout p_keep_alive p_params stale_err].
+    + repeat split; auto; intros; try discriminate; try (rewrite Ha in *; discriminate).
+    + repeat split; auto; intros; discriminate.
 Qed.
 
 Lemma hinit_HI l k : HI (hinit l k).
@@ -196,7 +203,7 @@ Lemma same_future_step s t o : same_future s t ->
   same_future (fst (hstep s o)) (fst (hstep t o)) /\
   option_map strip (snd (hstep s o)) = option_map strip (snd (hstep t o)).
 Proof.
-  intros (Hk & Hl & Hka & Hw). destruct o as [ordered mp out|l|b| |]; cbn [hstep fst snd]; facts.
+  intros (Hk & Hl & Hka & Hw). destruct o as [ordered mp out|l|b| | |amp]; cbn [hstep fst snd]; facts.
   - destruct Hw as [[Ha Hb]|(Ha & Hi & Hwl & Hwp & Hwo & Hpp)].
     + rewrite Ha, Hb, Hk, Hl, Hka. cbn. destruct out; cbn; (split; [unfold same_future; cbn; repeat split; auto|reflexivity]);
       right; repeat split; auto.
@@ -208,6 +215,12 @@ Proof.
   - split; [|reflexivity]. unfold same_future; cbn. repeat split; auto.
   - split; [|reflexivity]. unfold same_future; cbn. repeat split; auto.
   - split; [|reflexivity]. unfold same_future; cbn. repeat split; auto.
+  - rewrite ?apply_params_spec.
+    destruct Hw as [[Ha Hb]|(Ha & Hi & Hwl & Hwp & Hwo & Hpp)].
+    + rewrite Ha, Hb. cbn [fst snd]. split; [|reflexivity]. unfold same_future; cbn. rewrite Hk, Hl, Hka. repeat split; auto.
+      right. repeat split; auto.
+    + rewrite Ha. destruct (alive t) eqn:Hat; cbn [fst snd]; (split; [|reflexivity]); unfold same_future; cbn; rewrite ?Hk, ?Hl, ?Hka; repeat split; auto;
+        right; rewrite ?Hat; repeat split; auto.
 Qed.
 
 Lemma same_future_run : forall h s t, same_future s t -> map strip (hrun s h) = map strip (hrun t h).
@@ -243,7 +256,7 @@ Proof.
   assert (H : forall h s, HI s -> Forall (fun b => b = true) (hfails s h)).
   { induction h0 as [|o r IH]; intros s HIs; cbn [hfails]; [constructor|].
     apply Forall_app. split; [|apply IH; apply (hstep_HI s o HIs)].
-    destruct o as [ordered mp out|?|?| |]; cbn [surfaces_own]; try constructor.
+    destruct o as [ordered mp out|?|?| | |?]; cbn [surfaces_own]; try constructor.
     destruct out; try constructor; [|constructor]. facts.
     destruct HIs as (Hst & _). destruct (stale_err s) eqn:E; [rewrite (Hst eq_refl); cbn; reflexivity|].
     destruct (alive s && negb (initialized s)); destruct (alive s); cbn; reflexivity. }
